@@ -165,6 +165,20 @@ func genC20Registry(rng *simrt.Rand) *Case {
 	fn := []string{"verif_twice", "verif_fn2"}[rng.Intn(2)]
 	var opsA, opsB []Op
 	cycles := rng.Bool(0.6)
+	late := rng.Bool(0.5)
+	if late {
+		// B's functions are registered and its query is compiled while A is already evaluating:
+		// what B's compilation sees of the registry must not depend on A
+		for d := 0; d < 2+rng.Intn(4); d++ {
+			opsB = append(opsB, Op{K: "regfn", T: fmt.Sprintf("verif_helper%d", d)})
+		}
+		opsB = append(opsB, Op{K: "regfn", T: fn}, Op{K: "create", I: 1})
+		cycles = false
+		for j := 0; j < 2*n; j++ {
+			id := fmt.Sprintf("w%03d", j)
+			opsA = append(opsA, Op{K: "emitsync", I: 0, Row: Row{"id": id, "a": rng.Intn(6), "b": rng.Intn(6), "s": "ab"}, Tag: id})
+		}
+	}
 	for i := 0; i < n; i++ {
 		opsA = append(opsA, Op{K: "emitsync", I: 0, Row: Row{"id": fmt.Sprintf("r%03d", i), "a": rng.Intn(6), "b": rng.Intn(6), "s": "ab"}, Tag: fmt.Sprintf("r%03d", i)})
 		opsB = append(opsB, Op{K: "emitsync", I: 1, Row: Row{"id": fmt.Sprintf("r%03d", i), "a": rng.Intn(6)}, Tag: fmt.Sprintf("r%03d", i)})
@@ -178,6 +192,9 @@ func genC20Registry(rng *simrt.Rand) *Case {
 			}
 			continue
 		}
+		if late {
+			continue
+		}
 		if i == n/3 {
 			opsB = append(opsB, Op{K: "unregfn", T: fn})
 		}
@@ -188,6 +205,10 @@ func genC20Registry(rng *simrt.Rand) *Case {
 	c.Insts = []InstSpec{
 		{SQL: []string{"SELECT id, a + b AS ab, upper(s) AS us, abs(a - b) AS d FROM stream WHERE a >= 0", "SELECT id, expr('a + b') AS ab, upper(s) AS us FROM stream WHERE a >= 0"}[rng.Intn(2)], Sinks: []SinkSpec{{Mode: "sync"}}},
 		{SQL: fmt.Sprintf("SELECT id, %s(a) AS t, %s(a) + 1 AS t1 FROM stream WHERE %s(a) >= 0", fn, fn, fn), Sinks: []SinkSpec{{Mode: "sync"}}, Funcs: []string{fn}},
+	}
+	if late {
+		c.Insts[1].Late, c.Insts[1].Funcs = true, nil
+		c.X["late_instance"] = true
 	}
 	c.Clients = [][]Op{opsA, opsB}
 	c.Policy = genPolicy(rng, []time.Duration{time.Microsecond}, false)
@@ -418,6 +439,9 @@ func runC20Paired(e *Env) {
 	e.R.Summary = map[string]any{"kind": e.C.xStr("kind")}
 	if e.C.xStr("kind") == "fn_registry" {
 		e.Fault("function_unregistered_while_rows_flow")
+	}
+	if e.C.xBool("late_instance") {
+		e.Probe("instance_compiled_while_another_evaluates")
 	}
 	for i := range e.Insts {
 		e.R.Summary[fmt.Sprintf("out%d", i)] = c20Outputs(e, i)
